@@ -191,8 +191,8 @@ fn c20(args: &Args) -> i32 {
         check_name: "C20",
         level: "exploration",
         engine: "SCHED",
-        rule: format!("scenarios of 2-3 simulated threads x 1-3 operations on shared entities (LpgStore node/edge/label/property/index/statistics operations; RdfStore insert/remove/find of the same triple; TransactionManager begin/write/commit/gc), each explored under {n_sched} schedules (random, PCT depth 2 and 3) with every parking_lot acquire and release a scheduling point; non-trivial = at least two threads mutate; distinct = distinct scenarios (schedules are counted separately as distinct_interleavings)"),
-        real: vec!["LpgStore", "RdfStore", "TransactionManager", "ChunkedAdjacency", "PropertyStorage", "parking_lot lock state (try paths)"],
+        rule: format!("scenarios of 2-3 simulated threads x 1-3 operations on shared entities (LpgStore node/edge/label/property/index/statistics operations; RdfStore insert/remove/find of the same triple; TransactionManager begin/write/commit/gc; BufferManager grants against a budget that cannot fit them all; Catalog get_or_create / create_index / drop_index; QueryCache put/get/invalidate/clear at capacity 2; WalManager log/sync/rotate on one directory with rotation every 1-3 records), each explored under {n_sched} schedules (random, PCT depth 2 and 3) with every parking_lot acquire and release a scheduling point; non-trivial = at least two threads mutate; distinct = distinct scenarios (schedules are counted separately as distinct_interleavings)"),
+        real: vec!["LpgStore", "RdfStore", "TransactionManager", "ChunkedAdjacency", "PropertyStorage", "BufferManager/MemoryGrant", "Catalog", "QueryCache", "WalManager (real files on tmpfs through the file seam)", "parking_lot lock state (try paths)"],
         stub: vec!["parking_lot blocking paths (replaced by the simulator's wait queue)", "OS threads (shuttle coroutines on one OS thread)"],
         assumptions: vec![
             "interleavings are explored at the granularity of lock acquire/release (the quantifier's 'critical sections inside each operation'); plain memory accesses between two lock operations are atomic in the simulation".into(),
@@ -205,12 +205,27 @@ fn c20(args: &Args) -> i32 {
     drive(
         batch,
         &|seed, i| {
-            let fam = match i % 6 {
+            let fam = match i % 10 {
                 0 => eng_sched::Family::LpgCore,
                 1 | 2 => eng_sched::Family::Lpg,
                 3 => eng_sched::Family::Rdf,
                 4 => eng_sched::Family::Txm,
-                _ => eng_sched::Family::Buffer,
+                5 | 6 => eng_sched::Family::Buffer,
+                7 => eng_sched::Family::Catalog,
+                8 => eng_sched::Family::Cache,
+                _ => eng_sched::Family::Wal,
+            };
+            // development aid (timing one family); never set by the registered commands
+            let fam = match std::env::var("VERIF_DEV_FAMILY").as_deref() {
+                Ok("lpgcore") => eng_sched::Family::LpgCore,
+                Ok("lpg") => eng_sched::Family::Lpg,
+                Ok("rdf") => eng_sched::Family::Rdf,
+                Ok("txm") => eng_sched::Family::Txm,
+                Ok("buffer") => eng_sched::Family::Buffer,
+                Ok("catalog") => eng_sched::Family::Catalog,
+                Ok("cache") => eng_sched::Family::Cache,
+                Ok("wal") => eng_sched::Family::Wal,
+                _ => fam,
             };
             eng_sched::run_one(seed, fam, "C20", n_sched)
         },
